@@ -522,6 +522,72 @@ std::string hx_run(const std::string &line, std::string &oracle)
             FAIL("mul", "got " + r.s + " expected " + want.str());
         return r.s;
     }
+    if (alg == "mul_alias" || alg == "add_alias" || alg == "emul_alias") {
+        // the output matrix is one of the operands: mode 1 = left, 2 = right, 3 = left = right = output,
+        // 4 = right through the virtual API (A.op(B, B)), 5 = left through the virtual API (A.op(B, A)).
+        // The result must be the same as with a fresh output matrix, and the other operand must be untouched.
+        if (!needM(2) || !needS(1))
+            return "bad-op";
+        long mode = N[0];
+        if (mode < 1 || mode > 5)
+            return "bad-op";
+        if (mode == 3)
+            Bm = A;
+        DenseMatrix &L = dA;
+        DenseMatrix dB2 = toDM(Bm);
+        DenseMatrix &Rr = mode == 3 ? dA : dB2;
+        DenseMatrix &Out = (mode == 1 || mode == 5 || mode == 3) ? dA : dB2;
+        FM want;
+        if (alg == "mul_alias") {
+            want = fm_mul(A, Bm);
+            if (mode >= 4)
+                L.mul_matrix(Rr, Out);
+            else
+                mul_dense_dense(L, Rr, Out);
+        } else {
+            want = FM(A.r, A.c);
+            for (size_t i = 0; i < A.a.size(); i++)
+                want.a[i] = alg == "add_alias" ? A.a[i] + Bm.a[i] : A.a[i] * Bm.a[i];
+            if (mode >= 4) {
+                if (alg == "add_alias")
+                    L.add_matrix(Rr, Out);
+                else
+                    L.elementwise_mul_matrix(Rr, Out);
+            } else if (alg == "add_alias")
+                add_dense_dense(L, Rr, Out);
+            else
+                elementwise_mul_dense_dense(L, Rr, Out);
+        }
+        Res r = fromDM(Out);
+        if (!r.fin || !(r.m == want))
+            FAIL(alg, "aliased output (mode " + std::to_string(mode) + ") got " + r.s + " expected " + want.str());
+        else if (mode == 2 || mode == 4) {
+            Res ra = fromDM(dA);
+            if (!ra.fin || !(ra.m == A))
+                FAIL(alg, "left operand was modified: " + ra.s);
+        } else if (mode == 1 || mode == 5) {
+            Res rb = fromDM(dB2);
+            if (!rb.fin || !(rb.m == Bm))
+                FAIL(alg, "right operand was modified: " + rb.s);
+        }
+        return r.s;
+    }
+    if (alg == "adds_alias" || alg == "muls_alias") {
+        if (!needS(1))
+            return "bad-op";
+        RCP<const Basic> k = toBasic(S[0]);
+        if (alg == "adds_alias")
+            add_dense_scalar(dA, k, dA);
+        else
+            mul_dense_scalar(dA, k, dA);
+        Res r = fromDM(dA);
+        FM want(A.r, A.c);
+        for (size_t i = 0; i < A.a.size(); i++)
+            want.a[i] = alg == "adds_alias" ? A.a[i] + S[0] : A.a[i] * S[0];
+        if (!r.fin || !(r.m == want))
+            FAIL(alg, "in-place result got " + r.s + " expected " + want.str());
+        return r.s;
+    }
     if (alg == "adds" || alg == "muls") {
         if (!needS(1))
             return "bad-op";
@@ -1442,6 +1508,44 @@ static void gen_empty()
     emit("dm ones 2 0", "empty");
 }
 
+// fixed boundary family: the first pivot is not in the first column / not in the first row
+static void gen_leading_zero()
+{
+    const char *mats[] = {"2x3:0,1,2,0,3,4",        "2x3:0,0,0,0,0,0",           "2x3:0,0,1,0,0,2",
+                          "3x3:0,0,0,0,1,2,0,0,0",  "3x4:0,0,2,1,0,0,4,2,0,0,1,1", "3x3:0,0,0,0,0,0,0,0,5",
+                          "1x3:0,0,7",              "3x2:0,0,0,0,0,3",           "4x4:0,0,1,2,0,0,2,4,0,3,0,1,0,6,0,2",
+                          "3x3:0,2,1,0,4,2,0,1,1/2", "2x2:0,0,0,0",               "3x1:0,0,0",
+                          "2x4:0,0,0,1/3,0,0,0,2"};
+    const char *algs[] = {"rref 0", "rref 1", "rank", "pgje", "pffgje", "pge", "pffge"};
+    for (const char *m : mats)
+        for (const char *a : algs) {
+            auto ws = split(a, ' ');
+            emit("dm " + ws[0] + " " + m + (ws.size() > 1 ? " " + ws[1] : ""), std::string(a) + ":leading-zero-fixed");
+        }
+}
+// random matrix whose first z columns are zero, with optional zero rows and a rank-deficient rest
+static FM rnd_leading_zero(Rng &r, unsigned R, unsigned C)
+{
+    unsigned z = C <= 1 ? C : 1 + (unsigned)r.below(C - 1);
+    if (r.coin(1, 10))
+        z = C; // zero matrix
+    FM m(R, C);
+    unsigned w = C - z;
+    if (w > 0) {
+        unsigned t = 1 + (unsigned)r.below(std::min(R, w));
+        FM rest = r.coin() ? rndm(r, R, w, 25) : fm_mul(rnd_int(r, R, t, 15, 3), rnd_int(r, t, w, 15, 3));
+        for (unsigned i = 0; i < R; i++)
+            for (unsigned j = 0; j < w; j++)
+                m.at(i, z + j) = rest.at(i, j);
+    }
+    if (R > 1 && r.coin()) { // a zero row, preferably the first one
+        unsigned zr = r.coin() ? 0 : (unsigned)r.below(R);
+        for (unsigned j = 0; j < C; j++)
+            m.at(zr, j) = Fr(0);
+    }
+    return m;
+}
+
 void hx_gen(Rng &r0, const std::string &tier)
 {
     // common.h's SplitMix increment equals its seed multiplier, so seed k+1 is seed k shifted by one draw:
@@ -1450,6 +1554,7 @@ void hx_gen(Rng &r0, const std::string &tier)
     bool th = tier == "thorough";
     int reps = th ? 120 : 12;
     gen_empty();
+    gen_leading_zero();
     const char *sq1[] = {"lu", "plu", "plu1", "fflu", "ffldu", "ldl", "cholesky", "det_bareis", "det_berkowitz", "det",
                          "berkowitz", "char_poly", "inv_fflu", "inv_lu", "inv_plu", "inv_gj", "inv", "trace",
                          "is_diagonal", "is_symmetric", "is_hermitian", "is_symmetric_dense", "is_lower", "is_upper",
@@ -1502,6 +1607,35 @@ void hx_gen(Rng &r0, const std::string &tier)
                 s.tag = "dominance-boundary";
             }
             emit("dm " + alg + " " + s.m.str(), alg + ":" + s.tag);
+        }
+        {
+            // pivoted eliminations / rref (both normalisations) where the first pivot is found late
+            const char *lz[] = {"rref 0", "rref 1", "pffgje", "pgje", "pffge", "pge"};
+            for (int t = 0; t < 3; t++) {
+                const char *a = lz[(rep * 3 + t) % 6];
+                unsigned R = rnd_size(r, th), C = rnd_size(r, th, 2);
+                auto ws = split(a, ' ');
+                emit("dm " + ws[0] + " " + rnd_leading_zero(r, R, C).str() + (ws.size() > 1 ? " " + ws[1] : ""),
+                     std::string(a) + ":leading-zero");
+            }
+            // output matrix aliases an operand
+            unsigned n = rnd_size(r, th), k = rnd_size(r, th);
+            FM Sq = rndm(r, n, n, 20), Sq2 = rndm(r, n, n, 20), Rt = rndm(r, k, n, 20), Lt = rndm(r, n, k, 20);
+            int mm = 1 + (rep % 5);
+            // mul: output = left needs a square right operand, output = right a square left operand
+            if (mm == 1 || mm == 5)
+                emit("dm mul_alias " + Rt.str() + " " + Sq.str() + " " + tostr(mm), "mul_alias:out=left");
+            else if (mm == 3)
+                emit("dm mul_alias " + Sq.str() + " " + Sq.str() + " 3", "mul_alias:all-same");
+            else
+                emit("dm mul_alias " + Sq.str() + " " + Lt.str() + " " + tostr(mm), "mul_alias:out=right");
+            emit("dm mul_alias " + Sq2.str() + " " + Lt.str() + " " + tostr(rep % 2 ? 2 : 4), "mul_alias:out=right");
+            int am = 1 + ((rep + 2) % 5);
+            const char *ea = rep % 2 ? "add_alias" : "emul_alias";
+            emit(std::string("dm ") + ea + " " + Rt.str() + " " + (am == 3 ? Rt : rndm(r, k, n, 20)).str() + " " + tostr(am),
+                 std::string(ea) + ":mode" + tostr(am));
+            emit(std::string("dm ") + (rep % 2 ? "muls_alias " : "adds_alias ") + Lt.str() + " " + rndq(r, 10).str(),
+                 "scalar_alias");
         }
         for (const char *a : rect1) {
             unsigned R = rnd_size(r, th), C = rnd_size(r, th);
